@@ -283,8 +283,18 @@ def job_sched(j):
         sp["is_async"] = (rng.random() < 0.4) if fl == "both" else (fl == "async")
         if j.get("mc") is not None:
             sp["mc"] = j["mc"]
+        located = True
         try:
-            d, _env, plain = S.build_tawazi(sp)
+            if j.get("faults") and rng.random() < 0.2:
+                # no stack-frame support (as in the repository's own test): call locations are unknown
+                from unittest import mock
+
+                with mock.patch("inspect.currentframe", return_value=None):
+                    d, _env, plain = S.build_tawazi(sp)
+                located = False
+                col.counters["dags_built_without_frame_support"] += 1
+            else:
+                d, _env, plain = S.build_tawazi(sp)
         except BaseException as e:  # noqa: BLE001
             col.counters["build_error:%s" % type(e).__name__] += 1
             col.inconclusive.append("build failed for generated shape: %r" % (e,))
@@ -315,6 +325,7 @@ def job_sched(j):
                 _cfg.TAWAZI_PROFILE_ALL_NODES = old_prof
             if prof:
                 col.counters["cases_with_profiling_on"] += 1
+            case["located"] = located
             eval_case(col, case, mode)
     return col.result()
 
